@@ -172,7 +172,7 @@ def _pair_chunk(arg):
             viol.append((clause, rc))
     os.remove(rf)
     return {"n": len(recs), "distinct": r.distinct, "generated": r.generated, "viol": viol,
-            "broken": (bool(r.violated) and not r.viol_lines) or not r.completed, "tail": r.stdout[-1200:]}
+            "broken": (bool(r.violated) or not r.completed) and not r.viol_lines, "tail": r.stdout[-1200:]}
 
 
 def pairs_tier(out, wd, rng, thorough):
